@@ -265,7 +265,7 @@ def run_c12(tier, seed, wd, info, verdict):
     scs, meta = [], {}
     k = 0
     for n in range(2, 8):
-        for t in range(1, n + 2):
+        for t in range(0, n + 2):          # (threshold 0 - the value of an absent field - is outside the rule like any other)
             valid = 2 * t > n and t <= n
             sets = idsets(n, rnd) if (n == 3 or tier != "quick") else [list(range(1, n + 1))]
             for ids in sets[:(3 if valid else 1)]:
@@ -325,7 +325,7 @@ def run_c12(tier, seed, wd, info, verdict):
     conc = conc_gens_phase(tier, seed, wd, info, verdict)
     # clusters of REAL dirk binaries: each instance a process of the shipped program with its own wallet store, certificate and
     # configuration file, talking to its peers through the repository's own gRPC sender and receiver over mutual TLS
-    bnts = [(2, 2), (3, 2), (3, 3), (4, 3), (3, 1), (3, 4), (4, 2)] if tier == "quick" else [(n, t) for n in range(2, 6) for t in range(1, n + 2)]
+    bnts = [(2, 2), (3, 2), (3, 3), (4, 3), (3, 1), (3, 4), (4, 2), (3, 0), (2, 0)] if tier == "quick" else [(n, t) for n in range(2, 6) for t in range(0, n + 2)]
     bscs = []
     for n, t in bnts:
         for init in ([1, n] if tier == "quick" and 2 * t > n and t <= n else [1 + (n + t) % n] if tier == "quick" else range(1, n + 1)):
